@@ -78,6 +78,26 @@ Theorem C06_variant_sem : forall c hook it name vn tags vs bs,
 Proof. exact enum_deserialize_reader_dec. Qed.
 Print Assumptions C06_variant_sem.
 
+(** * 5b. The hook on the decoded VALUE *)
+(** What the emitted decoder returns is the value [dec] of the item's type returns, with the hook
+    applied to it exactly once ([hooked]: not at all without [init]); and decoding a variant directly
+    from its tag returns the same hooked value.  Both hold by construction of [with_init] (the
+    transcription of [let mut return_value = ..; return_value.init(); Ok(return_value)]): that the
+    real expansion behaves so is observed on generated items by checks/c06.py (the generated hook
+    counts its calls in a skipped field of the object and writes a checksum of the decoded fields). *)
+Theorem C06_init_on_value : forall c hook it t bs v rest n,
+  (forall vs0, it_body it = BEnum vs0 -> exists name vn tags vs, t = TSum (KEnum name vn tags) vs) ->
+  derived_deserialize_reader c hook it t bs = (Ok (v, rest), n) ->
+  exists v0, dec_slice c t bs = Ok (v0, rest) /\ v = hooked hook it v0.
+Proof. exact init_on_value. Qed.
+Print Assumptions C06_init_on_value.
+
+Theorem C06_variant_on_value : forall c hook it name vn tags vs b r v rest n,
+  deserialize_variant c hook it (TSum (KEnum name vn tags) vs) r (b2n b) = (Ok (v, rest), n) ->
+  exists v0, dec_slice c (TSum (KEnum name vn tags) vs) (b :: r) = Ok (v0, rest) /\ v = hooked hook it v0.
+Proof. exact variant_on_value. Qed.
+Print Assumptions C06_variant_on_value.
+
 (** * Examples: the hypotheses are satisfiable on non-trivial items *)
 Open Scope string_scope.
 
